@@ -107,6 +107,8 @@ def build_scores(s, which):
         return np.asarray(vals, dtype=float)
     if c == "list":
         return list(vals)
+    if c == "f128":  # extended precision floats (80-bit on x86); the values are float64 images
+        return np.asarray(vals, dtype=np.longdouble)
     if s["mode"] == "int":
         return np.asarray(vals, dtype=int)
     if c == "f32":
@@ -259,3 +261,55 @@ def np_array(flat, shape, dtype=float):
 
 
 RNG_SEED = st.integers(0, 2**32 - 1)
+
+
+# ------------------------------------------------------------------ kinds of callables
+CALLABLE_KINDS = ("function", "lambda", "partial", "bound", "object", "dataclass")
+
+
+class _Holder:
+    """Carries a function; ``call`` is handed over as a bound method."""
+
+    def __init__(self, fn):
+        self.fn = fn
+
+    def call(self, *a, **k):
+        if not isinstance(self, _Holder):
+            from .harness import Violation
+
+            raise Violation("callable:wrong-receiver",
+                            f"a bound method supplied as callable was invoked on a foreign receiver "
+                            f"({type(self).__name__}) instead of being called as given")
+        return self.fn(*a, **k)
+
+    def __call__(self, *a, **k):
+        return _Holder.call(self, *a, **k)
+
+
+def wrap_callable(fn, kind):
+    """The same callable in another of Python's shapes (all accept what ``fn`` accepts)."""
+    import dataclasses
+    import functools
+
+    if kind == "function":
+        return fn
+    if kind == "lambda":
+        return lambda *a, **k: fn(*a, **k)
+    if kind == "partial":
+        return functools.partial(fn)
+    if kind == "bound":
+        return _Holder(fn).call
+    if kind == "object":
+        return _Holder(fn)
+    if kind == "dataclass":
+        # a parametrised callable written as a plain dataclass: has __eq__, hence no __hash__
+        @dataclasses.dataclass
+        class Param:
+            fn: object
+            weight: float = 1.0
+
+            def __call__(self, *a, **k):
+                return self.fn(*a, **k)
+
+        return Param(fn)
+    raise ValueError(kind)
